@@ -30,6 +30,7 @@
 #include <xercesc/validators/schema/SchemaGrammar.hpp>
 #include <xercesc/validators/DTD/DTDGrammar.hpp>
 #include <xercesc/dom/DOM.hpp>
+#include <xercesc/dom/DOMLSParserFilter.hpp>
 #include <xercesc/dom/impl/DOMDocumentImpl.hpp>
 #include <xercesc/util/XMLUni.hpp>
 #include <xercesc/util/StringPool.hpp>
@@ -307,6 +308,11 @@ struct P {
     virtual void loadGrammar(const InputSource& src, Grammar::GrammarType t, bool cache) = 0;
     virtual void resetGrammarPool() = 0;
     virtual void resetDocPool() {}
+    virtual std::string cfgDump() { return ""; }                 // every setting read back through the public getters
+    virtual void parseUri(const std::string& uri) { XS u(uri); LocalFileOrUrl(u); }
+    virtual void LocalFileOrUrl(const XMLCh*) {}
+    virtual void parseFiltered(const InputSource& src, int) { parse(src); }
+    virtual void parseCtx(const std::string&, int, int) {}       // DOMLSParser::parseWithContext
     virtual bool adopt() { return false; }
     virtual bool adoptedFreed(size_t) { return false; }
     virtual std::string result() { return rec.canon(); }
@@ -333,6 +339,20 @@ template <class T> static void setCommon(T* p, const std::string& f, int v) {
     else if (f == "srcofs") p->setCalculateSrcOfs(b);
 }
 
+template <class T> static std::string dumpCommon(T* p) {
+    std::string o;
+    auto b = [&](const char* n, bool v) { o += std::string(n) + "=" + (v ? "1" : "0") + ","; };
+    b("ns", p->getDoNamespaces()); b("schema", p->getDoSchema());
+    o += "val=" + std::to_string(p->getValidationScheme() == T::Val_Never ? 0 : p->getValidationScheme() == T::Val_Always ? 1 : 2) + ",";
+    b("skipdtd", p->getSkipDTDValidation()); b("loaddtd", p->getLoadExternalDTD()); b("exitfatal", p->getExitOnFirstFatalError());
+    b("vcfatal", p->getValidationConstraintFatal()); b("fullcheck", p->getValidationSchemaFullChecking());
+    b("ic", p->getIdentityConstraintChecking()); b("cache", p->isCachingGrammarFromParse());
+    b("usecache", p->isUsingCachedGrammarInParse()); b("disallowdtd", p->getDisallowDoctype());
+    b("igncached", p->getIgnoreCachedDTD()); b("loadschema", p->getLoadSchema()); b("multimport", p->getHandleMultipleImports());
+    b("srcofs", p->getCalculateSrcOfs());
+    return o;
+}
+
 struct PSax : P {
     SAXParser* p;
     PSax() { p = new SAXParser(0, XMLPlatformUtils::fgMemoryManager, pool); p->setDocumentHandler(&h); p->setErrorHandler(&h);
@@ -347,6 +367,8 @@ struct PSax : P {
     bool progressive() override { return true; }
     void loadGrammar(const InputSource& s, Grammar::GrammarType t, bool c) override { p->loadGrammar(s, t, c); }
     void resetGrammarPool() override { p->resetCachedGrammarPool(); }
+    std::string cfgDump() override { return dumpCommon(p); }
+    void LocalFileOrUrl(const XMLCh* u) override { p->parse(u); }
 };
 struct PDom : P {
     XercesDOMParser* p;
@@ -381,6 +403,11 @@ struct PDom : P {
         return true;
     }
     std::string result() override { return rec.canon() + " D[" + dumpDoc(p->getDocument()) + "]"; }
+    std::string cfgDump() override {
+        return dumpCommon(p) + "entrefs=" + (p->getCreateEntityReferenceNodes() ? "1" : "0") + ",ignws=" +
+               (p->getIncludeIgnorableWhitespace() ? "0" : "1") + ",";
+    }
+    void LocalFileOrUrl(const XMLCh* u) override { p->parse(u); }
 };
 struct PSax2 : P {
     SAX2XMLReader* p;
@@ -417,6 +444,38 @@ struct PSax2 : P {
     bool progressive() override { return true; }
     void loadGrammar(const InputSource& s, Grammar::GrammarType t, bool c) override { p->loadGrammar(s, t, c); }
     void resetGrammarPool() override { p->resetCachedGrammarPool(); }
+    void LocalFileOrUrl(const XMLCh* u) override { p->parse(u); }
+    std::string cfgDump() override {
+        std::string o;
+        auto b = [&](const char* n, const XMLCh* f, bool inv) { bool v = p->getFeature(f); o += std::string(n) + "=" + ((v != inv) ? "1" : "0") + ","; };
+        b("ns", XMLUni::fgSAX2CoreNameSpaces, false); b("nsprefixes", XMLUni::fgSAX2CoreNameSpacePrefixes, false);
+        b("schema", XMLUni::fgXercesSchema, false); b("validation", XMLUni::fgSAX2CoreValidation, false);
+        b("dynamic", XMLUni::fgXercesDynamic, false); b("skipdtd", XMLUni::fgXercesSkipDTDValidation, false);
+        b("loaddtd", XMLUni::fgXercesLoadExternalDTD, false); b("exitfatal", XMLUni::fgXercesContinueAfterFatalError, true);
+        b("vcfatal", XMLUni::fgXercesValidationErrorAsFatal, false); b("fullcheck", XMLUni::fgXercesSchemaFullChecking, false);
+        b("ic", XMLUni::fgXercesIdentityConstraintChecking, false); b("cache", XMLUni::fgXercesCacheGrammarFromParse, false);
+        b("usecache", XMLUni::fgXercesUseCachedGrammarInParse, false); b("disallowdtd", XMLUni::fgXercesDisallowDoctype, false);
+        b("igncached", XMLUni::fgXercesIgnoreCachedDTD, false); b("loadschema", XMLUni::fgXercesLoadSchema, false);
+        b("multimport", XMLUni::fgXercesHandleMultipleImports, false); b("srcofs", XMLUni::fgXercesCalculateSrcOfs, false);
+        return o;
+    }
+};
+
+// DOMLSParserFilter with a few fixed behaviours
+struct LsFilter : public DOMLSParserFilter {
+    int mode;   // 0 accept everything, 1 reject elements named b, 2 skip elements named c, 3 interrupt at element b
+    explicit LsFilter(int m) : mode(m) {}
+    static bool named(const DOMNode* n, char c) { const XMLCh* s = n->getNodeName(); return s && s[0] == (XMLCh)c && s[1] == 0; }
+    FilterAction acceptNode(DOMNode* n) override {
+        if (n->getNodeType() == DOMNode::ELEMENT_NODE && mode == 2 && named(n, 'c')) return FILTER_SKIP;
+        return FILTER_ACCEPT;
+    }
+    FilterAction startElement(DOMElement* e) override {
+        if (mode == 1 && named(e, 'b')) return FILTER_REJECT;
+        if (mode == 3 && named(e, 'b')) return FILTER_INTERRUPT;
+        return FILTER_ACCEPT;
+    }
+    DOMNodeFilter::ShowType getWhatToShow() const override { return DOMNodeFilter::SHOW_ALL; }
 };
 struct PLs : P {
     DOMLSParser* p;
@@ -430,7 +489,7 @@ struct PLs : P {
         c->setParameter(XMLUni::fgDOMResourceResolver, (const void*)(DOMLSResourceResolver*)&h);
         c->setParameter(XMLUni::fgXercesDOMHasPSVIInfo, false);
     }
-    ~PLs() { p->release(); delete pool; }
+    ~PLs() { if (ctxDoc) ctxDoc->release(); p->release(); delete pool; }
     void sp(const XMLCh* n, bool b) { DOMConfiguration* c = p->getDomConfig(); if (c->canSetParameter(n, b)) c->setParameter(n, b); }
     void set(const std::string& f, int v) override {
         bool b = v != 0;
@@ -467,6 +526,56 @@ struct PLs : P {
     void resetGrammarPool() override { p->resetCachedGrammarPool(); }
     void resetDocPool() override { p->resetDocumentPool(); last = 0; }
     std::string result() override { return rec.canon() + " D[" + dumpDoc(last) + "]"; }
+    void parseUri(const std::string& uri) override { last = 0; XS u(uri); last = p->parseURI(u); }
+    void parseFiltered(const InputSource& s, int mode) override {
+        LsFilter f(mode);
+        p->setFilter(&f);
+        try { parse(s); } catch (...) { p->setFilter(0); throw; }
+        p->setFilter(0);
+    }
+    // a context document owned by the harness: <ctx><k1>t</k1><k2/></ctx>
+    DOMDocument* ctxDoc = 0;
+    void parseCtx(const std::string& frag, int action, int kind) override {
+        static const XMLCh ls[] = {chLatin_L, chLatin_S, chNull};
+        if (ctxDoc) { ctxDoc->release(); ctxDoc = 0; }
+        DOMImplementation* impl = DOMImplementationRegistry::getDOMImplementation(ls);
+        XS nCtx("ctx"), nK1("k1"), nK2("k2"), nT("t");
+        ctxDoc = impl->createDocument(0, nCtx, 0);
+        DOMElement* root = ctxDoc->getDocumentElement();
+        DOMElement* k1 = ctxDoc->createElement(nK1); root->appendChild(k1);
+        DOMText* tx = ctxDoc->createTextNode(nT); k1->appendChild(tx);
+        DOMElement* k2 = ctxDoc->createElement(nK2); root->appendChild(k2);
+        DOMNode* ctx = kind == 0 ? (DOMNode*)root : kind == 1 ? (DOMNode*)k1 : kind == 2 ? (DOMNode*)tx : (DOMNode*)k2;
+        std::string full = extUri("frag.xml");
+        XS id(full);
+        MemBufInputSource src((const XMLByte*)frag.data(), frag.size(), id, false);
+        Wrapper4InputSource w(&src, false);
+        std::string how;
+        try { p->parseWithContext(&w, ctx, (DOMLSParser::ActionType)action); how = "ok"; }
+        catch (...) { rec.event("CTX:" + dumpDocSafe()); throw; }
+        rec.event("CTX:" + dumpDocSafe());
+    }
+    std::string dumpDocSafe() { return ctxDoc ? dumpDoc(ctxDoc) : std::string("-"); }
+    std::string cfgDump() override {
+        std::string o;
+        DOMConfiguration* c = p->getDomConfig();
+        auto b = [&](const char* n, const XMLCh* f, bool inv) {
+            bool v = c->getParameter(f) != 0;
+            o += std::string(n) + "=" + ((v != inv) ? "1" : "0") + ",";
+        };
+        b("ns", XMLUni::fgDOMNamespaces, false); b("schema", XMLUni::fgXercesSchema, false);
+        b("validate", XMLUni::fgDOMValidate, false); b("validate-if-schema", XMLUni::fgDOMValidateIfSchema, false);
+        b("skipdtd", XMLUni::fgXercesSkipDTDValidation, false); b("loaddtd", XMLUni::fgXercesLoadExternalDTD, false);
+        b("exitfatal", XMLUni::fgXercesContinueAfterFatalError, true); b("vcfatal", XMLUni::fgXercesValidationErrorAsFatal, false);
+        b("fullcheck", XMLUni::fgXercesSchemaFullChecking, false); b("ic", XMLUni::fgXercesIdentityConstraintChecking, false);
+        b("cache", XMLUni::fgXercesCacheGrammarFromParse, false); b("usecache", XMLUni::fgXercesUseCachedGrammarInParse, false);
+        b("disallowdtd", XMLUni::fgDOMDisallowDoctype, false); b("igncached", XMLUni::fgXercesIgnoreCachedDTD, false);
+        b("loadschema", XMLUni::fgXercesLoadSchema, false); b("multimport", XMLUni::fgXercesHandleMultipleImports, false);
+        b("entrefs", XMLUni::fgDOMEntities, false); b("ignws", XMLUni::fgDOMElementContentWhitespace, true);
+        b("comments", XMLUni::fgDOMComments, false); b("cdata-sections", XMLUni::fgDOMCDATASections, false);
+        b("datatype-normalization", XMLUni::fgDOMDatatypeNormalization, false);
+        return o;
+    }
 };
 
 static P* mk(const std::string& api, const std::string& sc) {
@@ -500,7 +609,8 @@ static const std::string* docOf(const std::string& id) {
     return it == gDocs.end() ? 0 : &it->second;
 }
 
-struct HistState { bool locked = false; std::string lockedKeys; std::string poolViolation; std::string adoptViolation; };
+struct HistState { bool locked = false; std::string lockedKeys; std::string poolViolation; std::string adoptViolation;
+                   std::string cfgExpected; std::string cfgViolation; };
 
 // applies one operation; config = true when the operation is one a fresh parser also receives
 static void applyOp(P* p, const std::string& op, HistState& hs, bool freshSide) {
@@ -538,11 +648,41 @@ static void applyOp(P* p, const std::string& op, HistState& hs, bool freshSide) 
         MemBufInputSource src((const XMLByte*)it->second.data(), it->second.size(), id, false);
         guarded([&] { p->loadGrammar(src, a[2] == "d" ? Grammar::DTDGrammarType : Grammar::SchemaGrammarType, a[3] == "1"); });
     }
+    else if (k == "pu" && a.size() >= 2) {       // parse by URI: the document as a file in the work directory
+        p->rec.clear();
+        guarded([&] { p->parseUri(extUri("d_" + a[1] + ".xml")); });
+    }
+    else if (k == "pf" && a.size() >= 3) {       // DOMLSParser: parse with a DOMLSParserFilter installed
+        const std::string* d = docOf(a[1]); if (!d) return;
+        p->rec.clear();
+        MemBufInputSource src((const XMLByte*)d->data(), d->size(), base, false);
+        guarded([&] { p->parseFiltered(src, atoi(a[2].c_str())); });
+    }
+    else if (k == "pc" && a.size() >= 4) {       // DOMLSParser::parseWithContext(fragment, context node kind, action)
+        const std::string* d = docOf(a[1]); if (!d) return;
+        p->rec.clear();
+        guarded([&] { p->parseCtx(*d, atoi(a[2].c_str()), atoi(a[3].c_str())); });
+    }
     else if (k == "rd") guarded([&] { p->resetDocPool(); });
     else if (k == "rg") guarded([&] { p->resetGrammarPool(); });
     else if (k == "ad") guarded([&] { p->adopt(); });
     else if (k == "lk") { p->pool->lockPool(); hs.locked = true; hs.lockedKeys = poolKeys(p->pool); }
     else if (k == "ul") { p->pool->unlockPool(); hs.locked = false; }
+    // configuration read back through the public getters: set by configuration calls only, never by a parse
+    if (isCfg) hs.cfgExpected = p->cfgDump();
+    else if (!freshSide && hs.cfgViolation.empty()) {
+        if (hs.cfgExpected.empty()) hs.cfgExpected = p->cfgDump();      // (first operation: nothing to compare with yet)
+        else {
+            std::string now = p->cfgDump();
+            if (now != hs.cfgExpected) {
+                // name the first differing parameter
+                std::vector<std::string> x = splitc(hs.cfgExpected, ','), y = splitc(now, ',');
+                std::string which;
+                for (size_t i = 0; i < x.size() && i < y.size(); i++) if (x[i] != y[i]) { which = x[i] + "->" + y[i]; break; }
+                hs.cfgViolation = which + " after " + op;
+            }
+        }
+    }
     for (size_t i = 0; i < p->adopted.size(); i++)
         if (p->adoptedFreed(i) && hs.adoptViolation.empty()) hs.adoptViolation = "after " + op;
     if (hs.locked && hs.poolViolation.empty()) {
@@ -576,9 +716,30 @@ static std::string compare(const std::string& A, const std::string& B, int nEv, 
     return "diff # at " + std::to_string(i) + " # HIST " + clip(A.substr(st)) + " || FRESH " + clip(B.substr(st));
 }
 
+// what a cached grammar legitimately changes: entity-resolution events, DTDHandler notation / unparsed-entity events and
+// the doctype node's entity / notation maps (no DocTypeHandler callbacks when the DTD comes from the cache)
 static std::string stripRes(std::string s) {
     size_t k;
-    while ((k = s.find("RES:")) != std::string::npos) { size_t e = s.find(' ', k); s.erase(k, e == std::string::npos ? std::string::npos : e - k + 1); }
+    for (const char* pre : {"RES:", "N!", "U!"}) {
+        size_t from = 0;
+        while ((k = s.find(pre, from)) != std::string::npos) {
+            if (k > 0 && s[k - 1] != ' ' && s[k - 1] != '[') { from = k + 1; continue; }
+            size_t e = s.find(' ', k); s.erase(k, e == std::string::npos ? std::string::npos : e - k + 1);
+        }
+    }
+    if ((k = s.find("!DT:")) != std::string::npos) {
+        size_t e = s.find(' ', k);
+        std::string dt = s.substr(k, e == std::string::npos ? std::string::npos : e - k), kept;
+        size_t i = 0;
+        while (i < dt.size()) {
+            size_t j = dt.find('|', i + 1);
+            std::string part = dt.substr(i, j == std::string::npos ? std::string::npos : j - i);
+            if (!(part.rfind("|e:", 0) == 0 || part.rfind("|n:", 0) == 0)) kept += part;
+            if (j == std::string::npos) break;
+            i = j;
+        }
+        s.replace(k, dt.size(), kept);
+    }
     return s;
 }
 
@@ -589,6 +750,7 @@ static std::string doHistory(const std::vector<std::string>& t) {
     if (fin[0] != "F" || fin.size() < 2) return "bad-request";
     std::unique_ptr<P> ph(mk(api, sc)), pf(mk(api, sc));
     HistState hs, hf;
+    hs.cfgExpected = ph->cfgDump();
     for (size_t i = 3; i + 1 < t.size(); i++) { applyOp(ph.get(), t[i], hs, false); applyOp(pf.get(), t[i], hf, true); }
     bool transparent = fin.size() >= 3 && fin[2] == "t";    // cached grammars may be in play: entity-resolution events not compared
     if (fin.size() >= 3 && fin[2] == "r") { if (hs.locked) { ph->pool->unlockPool(); hs.locked = false; } guarded([&] { ph->resetGrammarPool(); }); }
@@ -604,6 +766,14 @@ static std::string doHistory(const std::vector<std::string>& t) {
     }
     if (!hs.adoptViolation.empty())
         return "adoptchanged # the parser released the memory of a document it had handed out by adoptDocument (" + hs.adoptViolation + ")";
+    if (hs.cfgViolation.empty()) {           // ... nor by the final parse
+        std::string now = ph->cfgDump();
+        if (!hs.cfgExpected.empty() && now != hs.cfgExpected) {
+            std::vector<std::string> x = splitc(hs.cfgExpected, ','), y = splitc(now, ',');
+            for (size_t i = 0; i < x.size() && i < y.size(); i++) if (x[i] != y[i]) { hs.cfgViolation = x[i] + "->" + y[i] + " after the final parse"; break; }
+        }
+    }
+    if (!hs.cfgViolation.empty()) return "configchanged " + hs.cfgViolation.substr(0, hs.cfgViolation.find('=')) + " # " + hs.cfgViolation;
     if (!hs.poolViolation.empty()) return "poolchanged # " + hs.poolViolation;
     for (size_t i = 0; i < ph->adopted.size(); i++) {
         if (ph->adoptedFreed(i)) return "adoptchanged # the parser released the memory of a document it had handed out by adoptDocument";
